@@ -340,7 +340,7 @@ func (e *Env) evalIndex(n *ast.IndexExpr) Term {
 		k := e.eval(n.Index)
 		ks, vs := e.u().sortOf(tt.Key()), e.u().sortOf(tt.Elem())
 		d, v, _ := e.st.mapFams(ks, vs)
-		return ite(e.st.readFam(e.cur, d, m, k), e.st.readFam(e.cur, v, m, k), e.u().zero(vs))
+		return ite(and(neq(m, intLit(0)), e.st.readFam(e.cur, d, m, k)), e.st.readFam(e.cur, v, m, k), e.u().zero(vs))
 	case *types.Basic:
 		if isStringType(t) {
 			return app(SInt, "gstr.at", e.eval(n.X), e.eval(n.Index))
@@ -414,7 +414,7 @@ func (e *Env) evalCall(n *ast.CallExpr) Term {
 			case SInt: // map
 				mt := e.typeOf(n.Args[0]).Underlying().(*types.Map)
 				_, _, l := e.st.mapFams(e.u().sortOf(mt.Key()), e.u().sortOf(mt.Elem()))
-				return e.st.readFam(e.cur, l, a)
+				return ite(eq(a, intLit(0)), intLit(0), e.st.readFam(e.cur, l, a))
 			}
 		case "cap":
 			return slCap(e.eval(n.Args[0]))
@@ -474,7 +474,8 @@ func (e *Env) evalCall(n *ast.CallExpr) Term {
 	case "dom":
 		mt := e.typeOf(n.Args[0]).Underlying().(*types.Map)
 		d, _, _ := e.st.mapFams(e.u().sortOf(mt.Key()), e.u().sortOf(mt.Elem()))
-		return e.st.readFam(e.cur, d, e.eval(n.Args[0]), e.eval(n.Args[1]))
+		m := e.eval(n.Args[0])
+		return and(neq(m, intLit(0)), e.st.readFam(e.cur, d, m, e.eval(n.Args[1])))
 	case "typeis":
 		v := e.eval(n.Args[0])
 		t := e.typeOf(typeArgs[0])
@@ -494,6 +495,12 @@ func (e *Env) evalCall(n *ast.CallExpr) Term {
 			e.fail(n, "visited() is only defined in invariants of map-range loops")
 		}
 		return app(SBool, v.S, e.eval(n.Args[0]))
+	case "itercount":
+		v, ok := e.ghost["$itercount"]
+		if !ok {
+			e.fail(n, "itercount() is only defined in invariants of map-range loops")
+		}
+		return v
 	case "locs", "cells", "mapcells", "nothing", "unchanged":
 		e.fail(n, "%s is only allowed in assigns clauses", name)
 	}
